@@ -47,6 +47,8 @@ DEVIATION_ERR = {
     "gossip-block-mark-before-proposer-check": (lambda e: "expected proposer" in e["err"]),
     "gossip-sync-period-boundary": (lambda e: e["verdict"] != "REJECT" or "is not in sync committee subnet" in e["err"]
                                     or "could not find aggregator" in e["err"]),
+    "gossip-contrib-single-participant": (lambda e: "at least 1 participant" in e["err"]),
+    "gossip-exit-deneb-domain": (lambda e: e["verdict"] != "REJECT" or "signature could not be verified" in e["err"]),
 }
 
 PRINT_RE = re.compile(r'<<\s*"(MISMATCH|DEVIATION)",\s*(\d+),\s*(\d+),\s*(\d+),\s*"(\w+)",(.*?)>>\n(?=<<|Model|\s*Estim|Error|Progress|Finished|$)', re.S)
@@ -147,21 +149,30 @@ def analyse(events, tier, seed, deviations):
             if p["kind"] == "MISMATCH":
                 r.mismatches.append((ev, hist, p["rest"]))
             else:
-                m = re.match(r'\s*"([\w-]+)"', p["rest"])
-                name = m.group(1) if m else "?"
-                chk = DEVIATION_ERR.get(name)
-                if chk and not chk(ev):
-                    r.dev_bad.append((ev, hist, "deviation %s matched structurally but zrnt's error text differs: %s" % (name, ev["err"])))
+                # the set of listed deviations that explain the event structurally; at least one must also
+                # agree with the error text zrnt returned
+                m = re.match(r'\s*\{([^}]*)\}', p["rest"])
+                names = re.findall(r'"([\w-]+)"', m.group(1)) if m else []
+                good = [n for n in names if n not in DEVIATION_ERR or DEVIATION_ERR[n](ev)]
+                if not good:
+                    r.dev_bad.append((ev, hist, "deviation %s matched structurally but zrnt's error text differs: %s" % (names, ev["err"])))
                 else:
-                    r.dev_used[name] += 1
+                    r.dev_used[good[0]] += 1
     r.mismatches.sort(key=lambda x: (x[0]["h"], x[0]["i"]))
     return r
+
+
+# class of every condition (must equal the c field of the tables in GossipVal.tla)
+T_CLASS = {"block": {"not_future", "after_finalized", "parent_seen"}, "att": {"slot_window", "block_seen", "finalized_ancestor"},
+           "agg": {"slot_window", "block_seen", "finalized_ancestor"}, "syncmsg": {"current_slot"}, "contrib": {"current_slot"}}
+SOFT = collections.Counter()
 
 
 def coverage(events):
     cov = {t: {c: [0, 0] for c in COND[t] + ["first:" + k for k in CACHES[t]]} for t in TOPICS}
     verdicts = {t: collections.Counter() for t in TOPICS}
     single = {t: collections.Counter() for t in TOPICS}
+    SOFT.clear()
     for e in events:
         if e["ev"] != "Msg":
             continue
@@ -179,6 +190,9 @@ def coverage(events):
         verdicts[t][e["verdict"]] += 1
         if len(failing) == 1:
             single[t][failing[0]] += 1
+        # informational: REJECT-class failures (only) answered with IGNORE - allowed by C12, noted in the evidence
+        if failing and e["verdict"] == "IGNORE" and not any(f.startswith("first:") or f in T_CLASS.get(t, ()) for f in failing):
+            SOFT["%s: %s" % (t, "+".join(sorted(failing)))] += 1
     return cov, verdicts, single
 
 
@@ -199,7 +213,7 @@ def check_vacuity(cov, verdicts, single):
                 missing.append("%s.%s never true" % (t, c))
             if f == 0:
                 missing.append("%s.%s never false" % (t, c))
-            if single[t][c] == 0 and (t, c) not in NOT_SINGLE:
+            if single[t][c] == 0 and (t, c) not in NOT_SINGLE and not c.startswith("first:"):
                 missing.append("%s.%s never the only failing condition" % (t, c))
         for v in ("ACCEPT", "IGNORE", "REJECT"):
             if verdicts[t][v] == 0:
@@ -209,7 +223,7 @@ def check_vacuity(cov, verdicts, single):
 
 
 def replay_doc(ev, hist, detail, tier, seed):
-    return {"property": PID, "tier": tier, "seed": seed, "scen": ev["scen"], "history": ev["name"], "step": ev["i"],
+    return {"property": PID, "tier": tier, "seed": ev.get("hseed", seed), "scen": ev["scen"], "history": ev["name"], "step": ev["i"],
             "detail": detail, "events": hist}
 
 
@@ -236,12 +250,32 @@ def run_check(pid, tier, seed, replay=None):
         th = threading.Thread(target=mc)
         th.start()
 
-    log = run_harness(gbin, tier, seed, trace, extra)
-    lib.log(log.strip())
-    events = lib.read_ndjson(trace)
-    if not any(e["ev"] == "Msg" for e in events):
-        raise lib.InfraError("the harness produced no message events" + (" (replay history not found)" if replay else ""))
-    res = analyse(events, tier, seed, deviations)
+    # quick: one recording; thorough: three recordings with different chain variations and samples
+    hseeds = [seed] if (tier == "quick" or replay) else [seed, seed + 1000, seed + 2000]
+    events = []
+    res = None
+    for k, hs in enumerate(hseeds):
+        tr = os.path.join(d, "trace%d.ndjson" % k)
+        log = run_harness(gbin, tier, hs, tr, extra)
+        lib.log(log.strip())
+        evs = lib.read_ndjson(tr)
+        for e in evs:
+            e["hseed"] = hs
+        if not any(e["ev"] == "Msg" for e in evs):
+            raise lib.InfraError("the harness produced no message events" + (" (replay history not found)" if replay else ""))
+        r = analyse(evs, tier, hs, deviations)
+        # make history numbers unique over the recordings
+        for e in evs:
+            e["h"] += k * 1000000
+        events += evs
+        if res is None:
+            res = r
+        else:
+            res.states += r.states
+            res.transitions += r.transitions
+            res.mismatches += r.mismatches
+            res.dev_bad += r.dev_bad
+            res.dev_used.update(r.dev_used)
 
     mc_states = mc_trans = 0
     mc_info = {}
@@ -277,7 +311,7 @@ def run_check(pid, tier, seed, replay=None):
         rc = 1
 
     cov, verdicts, single = coverage(events)
-    if not replay:
+    if not replay and rc == 0:
         check_vacuity(cov, verdicts, single)
 
     nmsg = sum(1 for e in events if e["ev"] == "Msg")
@@ -310,6 +344,7 @@ def run_check(pid, tier, seed, replay=None):
         "condition_matrix": {t: {c: {"false": v[0], "true": v[1]} for c, v in cov[t].items()} for t in TOPICS},
         "single_condition_failures": {t: dict(single[t]) for t in TOPICS},
         "verdicts": {t: dict(verdicts[t]) for t in TOPICS},
+        "reject_class_failures_answered_ignore": dict(SOFT),
         "model_checking": mc_info,
         "exhaustive": False,
         "exhaustive_part": "MC_GossipVal per topic: every truth assignment to the topic's conditions x every key "
@@ -328,7 +363,82 @@ def run_check(pid, tier, seed, replay=None):
 
 
 def scen_of(view):
+    if view.startswith("p0fork"):
+        return "p0fork"
     for k, v in {"p0early": "p0", "p0lag": "p0", "altmid": "alt", "latebel": "late"}.items():
         if view == k:
             return v
     return view
+
+
+CANNED_MUTANT = "att-subnet-check-dropped"
+
+
+def selftest():
+    """Binding demonstrations: (1) a recording of the real validators is accepted, and the same recording with one
+    corrupted verdict / one removed Mark call / one dropped Reset is rejected by GossipValTrace; (2) deliberately
+    wrong designs (Mutant constant of MC_GossipVal) violate the model-checked invariants; (3) a canned mutation of
+    zrnt (the subnet check of ValidateAttestation dropped) in a scratch worktree makes the check print VIOLATION."""
+    ok = True
+    gbin = lib.build_harness("gossip")
+    devs = active_deviations()
+    d = lib.scratch("gossip-selftest")
+    trace = os.path.join(d, "trace.ndjson")
+    run_harness(gbin, "quick", 7, trace, ["-scen", "p0", "-topic", "att,block,exit"])
+    events = lib.read_ndjson(trace)
+    base = analyse(events, "quick", 7, devs)
+    lib.log("selftest: unmodified recording: %d events, %d mismatches" % (len(events), len(base.mismatches) + len(base.dev_bad)))
+    ok &= not base.mismatches and not base.dev_bad
+
+    def corrupted(name, pred, change):
+        nonlocal ok
+        ev2 = json.loads(json.dumps(events))
+        idx = pred if isinstance(pred, int) else next(i for i, e in enumerate(ev2) if pred(e))
+        if change is None:
+            del ev2[idx]
+        else:
+            change(ev2[idx])
+        r = analyse(ev2, "quick", 7, devs)
+        n = len(r.mismatches) + len(r.dev_bad)
+        lib.log("selftest: %s at event %d -> %d mismatches" % (name, idx, n))
+        ok &= n >= 1
+
+    corrupted("honest ACCEPT logged as IGNORE", lambda e: e["ev"] == "Msg" and e["topic"] == "att" and e["verdict"] == "ACCEPT",
+              lambda e: e.update(verdict="IGNORE"))
+    corrupted("refused message logged as ACCEPT", lambda e: e["ev"] == "Msg" and e["topic"] == "block" and e["verdict"] == "REJECT" and not e["marks"],
+              lambda e: e.update(verdict="ACCEPT"))
+    corrupted("Mark call removed from an ACCEPT", lambda e: e["ev"] == "Msg" and e["verdict"] == "ACCEPT" and e["marks"],
+              lambda e: e.update(marks=[]))
+    corrupted("Mark call added to a refusal", lambda e: e["ev"] == "Msg" and e["topic"] == "exit" and e["verdict"] == "REJECT",
+              lambda e: e.update(marks=[["exit", e["key"]["exit"][0]]]))
+    corrupted("timing failure logged as REJECT", lambda e: e["ev"] == "Msg" and e["topic"] == "att" and e["desc"] == "head:unknown",
+              lambda e: e.update(verdict="REJECT"))
+    # dropping the Reset between two histories that use the same key makes the second start with a marked cache
+    first_h = {}
+    target = None
+    for i, e in enumerate(events):
+        if e["ev"] == "Msg" and e["verdict"] == "ACCEPT":
+            k = (e["topic"], json.dumps(e["key"], sort_keys=True))
+            if k in first_h and first_h[k] != e["h"] and events[i - 1]["ev"] == "Reset" and events[i - 1]["h"] == first_h[k] + 1:
+                target = i - 1
+                break
+            first_h.setdefault(k, e["h"])
+    if target is not None:
+        corrupted("Reset dropped between two histories with the same key", target, None)
+
+    # (2) design mutants violate the invariants
+    for mutant, topic in (("mark-on-ignore", "att"), ("mark-before-last", "block"), ("reject-timing", "syncmsg")):
+        res = model_check("quick", mutant=mutant, topics=[topic])[topic]
+        bad = bool(res.invariant_violated)
+        lib.log("selftest: MC_GossipVal(%s) with Mutant=%s -> invariant violated: %s" % (topic, mutant, res.invariant_violated))
+        ok &= bad
+    res = model_check("quick", topics=["pslash"])["pslash"]
+    ok &= "No error has been found" in res.out
+
+    # (3) canned code mutation
+    import gossip_mutants
+    m = next(x for x in gossip_mutants.MUTANTS if x[0] == CANNED_MUTANT)
+    rc, viol, det, tail = gossip_mutants.run_one(m, False)
+    lib.log("selftest: zrnt mutant %s -> rc=%d %s" % (CANNED_MUTANT, rc, viol[:1]))
+    ok &= rc == 1 and bool(viol)
+    return bool(ok)
